@@ -28,6 +28,10 @@ def main() -> int:
         subprocess.run(["git", "-C", "/repo", "worktree", "prune"], check=False)
         dst = scratch / "repo"
         shutil.copytree("/repo", dst, ignore=shutil.ignore_patterns(".git", "__pycache__", "docs", "*.pyc"))
+        for f in list(dst.glob("src/**/*.py")) + list(dst.glob("tests/**/*.py")):
+            b = f.read_bytes()
+            if b"\r\n" in b:
+                f.write_bytes(b.replace(b"\r\n", b"\n"))  # patches are LF (git-normalised)
         if patch.startswith("sed:"):
             _, rel, old, new = patch.split(":", 3)
             p = dst / rel
